@@ -124,3 +124,37 @@ pub fn replay_dir() -> String {
     let _ = std::fs::create_dir_all(&dir);
     dir
 }
+
+/// Silence stdout of in-process library code (the repository's builders print progress).
+pub struct Gag(i32);
+
+impl Gag {
+    pub fn new() -> Gag {
+        use std::io::Write;
+        let _ = std::io::stdout().flush();
+        unsafe {
+            let saved = libc::dup(1);
+            let devnull = libc::open(b"/dev/null\0".as_ptr() as *const libc::c_char, libc::O_WRONLY);
+            libc::dup2(devnull, 1);
+            libc::close(devnull);
+            Gag(saved)
+        }
+    }
+}
+
+impl Default for Gag {
+    fn default() -> Self {
+        Self::new()
+    }
+}
+
+impl Drop for Gag {
+    fn drop(&mut self) {
+        use std::io::Write;
+        let _ = std::io::stdout().flush();
+        unsafe {
+            libc::dup2(self.0, 1);
+            libc::close(self.0);
+        }
+    }
+}
